@@ -76,6 +76,27 @@ def find_best_scans(w: Walker, li: LoopInfo) -> List[BestScan]:
     return out
 
 
+def find_detached_scans(w: Walker, li: LoopInfo):
+    """A companion is updated under a comparison with a carried value that is itself NOT updated exactly in that
+    branch (the running optimum was moved out of / dropped from the accepted branch): [(name, test, end value)]."""
+    out = []
+    for m, (init, end) in li.carried.items():
+        phi = ("phi", li.lid, m)
+        for n2, (i2, e2) in li.carried.items():
+            if n2 == m:
+                continue
+            t = e2
+            while t[0] == "sel":
+                c = t[1]
+                if c[0] == "cmp" and c[1] in ("<", "<=") and phi in (c[2], c[3]):
+                    cand = c[3] if c[2] == phi else c[2]
+                    exact = end[0] == "sel" and end[1] == c and end[3] == phi and end[2] == cand
+                    if not exact and (m, c) not in [(a, b) for a, b, _ in out]:
+                        out.append((m, c, end))
+                t = t[2] if t[3] == ("phi", li.lid, n2) else t[3]
+    return out
+
+
 def position_vars(li: LoopInfo) -> Dict[str, Term]:
     """Variables advanced unconditionally by +1 per iteration: name -> init."""
     out = {}
